@@ -119,6 +119,24 @@ pub fn run(ctx: &Ctx, rep: &mut Report) {
             },
         );
     }
+    // ---- thorough, configuration oc only: every 32-bit value at width 4 (the 32-bit space exhaustively)
+    if ctx.thorough() && ctx.config == "oc" {
+        ctx.family(rep, "enc-all-u32", "every u32 value as U32: minimal big-endian encoding and round-trip (the whole 32-bit space)", 1u64 << 32, true, |i, rep| {
+            let v = i as u32;
+            let be = v.to_be_bytes();
+            let skip = (v.leading_zeros() / 8) as usize;
+            let expect = &be[skip.min(4)..];
+            let got: Vec<u8> = OptionValueU32(v).into();
+            let ok = got == expect && OptionValueU32::try_from(got).map(|x| x.0) == Ok(v);
+            if !ok {
+                let got: Vec<u8> = OptionValueU32(v).into();
+                rep.violation(viol("enc-all-u32", i, "C06/encoding-not-minimal-big-endian", format!("u32 {} encodes to {}, expected {}", v, hex(&got), hex(expect)), Json::obj().set("value", v)));
+            } else if v & 0xFFFFF == 0 {
+                rep.count_n("uint-roundtrip-ok", 1 << 20);
+                rep.bucket(&(4usize, expect.len()));
+            }
+        });
+    }
     // ---- encode: powers of two and 256^k neighbours, MAX
     {
         let mut vals: Vec<u64> = vec![0, u64::MAX, u32::MAX as u64, u32::MAX as u64 + 1];
